@@ -46,7 +46,7 @@ type watch struct {
 func (w *watch) note(op, name string) {
 	w.mu.Lock()
 	defer w.mu.Unlock()
-	if !w.active || strings.HasSuffix(name, "lock") {
+	if !w.active || isLock(name) { // taking and releasing the lock itself (the file, or the temporary file that becomes it)
 		return
 	}
 	w.writes++
